@@ -38,8 +38,8 @@ from vlib import refsim
 PID = 'C19'
 
 # ---- budgets ------------------------------------------------------------
-COST_CASES = {'quick': 1500, 'thorough': 24000}
-INST_CASES = {'quick': 600, 'thorough': 8000}
+COST_CASES = {'quick': 1500, 'thorough': 20000}
+INST_CASES = {'quick': 600, 'thorough': 6000}
 DIM_CAP = {'quick': 36, 'thorough': 64}
 GRAD_REF_MAX = 6
 GRAD_FD_MAX = 2
@@ -916,7 +916,23 @@ def merge(run: core.Run, r: dict[str, Any], seen: set[str]) -> None:
             if key in seen:
                 continue
             seen.add(key)
+        PENDING.append(w)
+
+
+PENDING: list[dict[str, Any]] = []
+
+
+def flush(run: core.Run) -> None:
+    """Report the collected witnesses, one of every distinct mechanism first
+    (only the first few get a replay file)."""
+    first: dict[str, dict[str, Any]] = {}
+    for w in PENDING:
+        first.setdefault('%s|%s' % (w.get('kind'), w.get('native_grad_blame')), w)
+    head = sorted(first.values(), key=lambda w: w.get('native_grad_blame') is not None)
+    ids = {id(w) for w in head}
+    for w in head + [w for w in PENDING if id(w) not in ids]:
         run.violation(w)
+    PENDING.clear()
 
 
 def main(tier: str, seed: int, replay: str | None = None) -> int:
@@ -935,6 +951,7 @@ def main(tier: str, seed: int, replay: str | None = None) -> int:
     for r in res:
         run.case(r['sig'] or 'none', nontrivial=bool(r['nt']) and r['sig'] is not None, sample=r['sample'])
         merge(run, r, seen)
+    flush(run)
     if run.counters.get('cases_without_wrapper_evaluations', 0):
         run.inconclusive_because('%d instantiate cases ran without reaching the per-start wrapper'
                                  % run.counters['cases_without_wrapper_evaluations'])
@@ -979,6 +996,7 @@ def do_replay(run: core.Run, path: str) -> int:
     run.case(r['sig'] or 'none')
     run.case('replay-marker')
     merge(run, r, set())
+    flush(run)
     print('replayed %s case seed=%d idx=%d: %d witnesses (recorded kind: %s)' % (
         case.get('group'), case['seed'], case['idx'], len(r['w']), w.get('kind')))
     for ww in r['w']:
